@@ -101,7 +101,7 @@ def gen_compact(rng, depth=0, maxdepth=3):
     tag = rng.choice(['a', 'b', 'c', 'doc', 'p'])
     attrs = [(k, rng.choice(['1', 'v w', ''])) for k in rng.sample(['i', 'j', 'k'], rng.choice([0, 0, 1, 2]))]
     r = rng.random()
-    if depth < maxdepth and r < (0.75 if depth == 0 else 0.45):
+    if depth < maxdepth and r < (0.9 if depth == 0 else 0.45):
         kids = []
         for _ in range(rng.randint(1, 4)):
             if rng.random() < 0.15:
@@ -546,6 +546,11 @@ def main(run):
         "documents without DTD, xml:space, CDATA sections, entity/character references inside white space runs",
         "the Differ is not re-proved here: 'equal stripped documents => empty script' is C03, 'diff_main(s, s) has no edit' is C16",
         "translator/xl_main.py reads main.py/formatting.py correctly (its tables are executed against the implementation on every run)"]
+    run.level = "partial proof"
+    run.notes.append("partial: (1) the libxml2 blank-text rule is a validated model, not verified code; (2) 'with WS_NONE the script consists of "
+                     "text updates only and round-trips' is established by the oracle on the implementation (diff_texts/diff_trees/patch_text), "
+                     "not by a theorem about the Differ (DESIGN's C14_only_text_actions is not proved); (3) 'equal stripped documents => empty "
+                     "script' is C03's theorem and 'diff_main(s, s) has no edit' is C16's -- referenced, not re-proved")
     lib.conclude(run, ok, pinfo, corr, viols, deeper)
 
 
